@@ -5,6 +5,9 @@
  *   rt <secs> <fmt> <full|short> <parse fmt>
  *   acc <secs> <ms>        aws_date_time_init_epoch_secs(secs + ms/1000.0)
  *   millis <u64>           aws_date_time_init_epoch_millis
+ *   lfmt <off> <zone hex> <secs> <fmt> <full|short>   local-time formatters (off / zone describe TZ for the model)
+ *   diff <a> <b>           aws_date_time_diff
+ *   now                    aws_date_time_init_now checked against the wall clock
  *   fmtb <cap> <prefix hex> (<secs> <fmt> <full|short>)+
  *                          the timestamps are formatted one after the other into ONE aws_byte_buf of capacity cap
  *                          that already holds the prefix (a '/' is pushed between them when there is room); after
@@ -15,6 +18,7 @@
 #include <aws/common/date_time.h>
 #include <stdlib.h>
 #include <string.h>
+#include <time.h>
 
 static char s_cls = 'P';
 
@@ -34,7 +38,7 @@ static int s_short(const char *s) {
 
 static void s_fields(const struct aws_date_time *dt) {
     printf(
-        "ts=%lld ms=%u y=%u mon=%d d=%u wd=%d h=%u mi=%u s=%u\n",
+        "ts=%lld ms=%u y=%u mon=%d d=%u wd=%d h=%u mi=%u s=%u dst=%d\n",
         (long long)dt->timestamp,
         (unsigned)dt->milliseconds,
         (unsigned)aws_date_time_year(dt, false),
@@ -43,7 +47,8 @@ static void s_fields(const struct aws_date_time *dt) {
         (int)aws_date_time_day_of_week(dt, false),
         (unsigned)aws_date_time_hour(dt, false),
         (unsigned)aws_date_time_minute(dt, false),
-        (unsigned)aws_date_time_second(dt, false));
+        (unsigned)aws_date_time_second(dt, false),
+        aws_date_time_dst(dt, false) ? 1 : 0);
 }
 
 static void s_views(const struct aws_date_time *dt) {
@@ -212,6 +217,56 @@ int main(void) {
                 s_do_fmtb(cap, pre, pl, ns, t + 3);
             }
             free(pre);
+        } else if (!strcmp(t[0], "lfmt") && n == 6) {
+            /* t[1], t[2] describe the process zone for the model; here the real TZ applies */
+            int f = s_fmt(t[4]), sh = s_short(t[5]);
+            if (f < 0 || sh < 0) {
+                printf("bad-op\n");
+                continue;
+            }
+            struct aws_date_time dt;
+            aws_date_time_init_epoch_secs(&dt, (double)hc_parse_i64(t[3]));
+            uint8_t *mem = malloc(100);
+            HC_CHECK(mem != NULL);
+            struct aws_byte_buf buf = aws_byte_buf_from_empty_array(mem, 100);
+            int rc = sh ? aws_date_time_to_local_time_short_str(&dt, (enum aws_date_format)f, &buf)
+                        : aws_date_time_to_local_time_str(&dt, (enum aws_date_format)f, &buf);
+            if (rc != AWS_OP_SUCCESS) {
+                printf("%c lfmt %s\n", s_cls, hc_last_error_name());
+            } else {
+                printf("%c lfmt OK ", s_cls);
+                hc_put_hex(buf.buffer, buf.len);
+                printf("\n");
+            }
+            free(mem);
+        } else if (!strcmp(t[0], "diff") && n == 3) {
+            struct aws_date_time a, b;
+            aws_date_time_init_epoch_secs(&a, (double)hc_parse_i64(t[1]));
+            aws_date_time_init_epoch_secs(&b, (double)hc_parse_i64(t[2]));
+            printf("%c diff %lld\n", s_cls, (long long)aws_date_time_diff(&a, &b));
+        } else if (!strcmp(t[0], "now") && n == 1) {
+            /* aws_date_time_init_now against the wall clock: the instant within a few seconds, ms < 1000, the
+             * broken-down UTC time that of the timestamp, the epoch views consistent */
+            time_t w0 = time(NULL);
+            struct aws_date_time dt;
+            aws_date_time_init_now(&dt);
+            time_t w1 = time(NULL);
+            struct tm g;
+            time_t ts = dt.timestamp;
+            gmtime_r(&ts, &g);
+            bool ok = dt.timestamp >= w0 - 2 && dt.timestamp <= w1 + 2 && dt.milliseconds < 1000 &&
+                      aws_date_time_year(&dt, false) == (uint16_t)(g.tm_year + 1900) &&
+                      (int)aws_date_time_month(&dt, false) == g.tm_mon && aws_date_time_month_day(&dt, false) == g.tm_mday &&
+                      aws_date_time_hour(&dt, false) == g.tm_hour && aws_date_time_minute(&dt, false) == g.tm_min &&
+                      aws_date_time_second(&dt, false) == g.tm_sec && (int)aws_date_time_day_of_week(&dt, false) == g.tm_wday &&
+                      aws_date_time_as_millis(&dt) == (uint64_t)dt.timestamp * 1000U + dt.milliseconds &&
+                      aws_date_time_as_nanos(&dt) == aws_date_time_as_millis(&dt) * 1000000U;
+            if (ok) {
+                printf("%c now ok\n", s_cls);
+            } else {
+                printf("%c now BAD ts=%lld ms=%u wall=%lld..%lld\n", s_cls, (long long)dt.timestamp, (unsigned)dt.milliseconds,
+                       (long long)w0, (long long)w1);
+            }
         } else if (!strcmp(t[0], "acc") && n == 3) {
             long long secs = hc_parse_i64(t[1]);
             unsigned long ms = strtoul(t[2], NULL, 10);
@@ -220,12 +275,14 @@ int main(void) {
                 continue;
             }
             struct aws_date_time dt;
+            memset(&dt, 0x5A, sizeof(dt)); /* stale contents must not show through */
             aws_date_time_init_epoch_secs(&dt, (double)secs + (double)ms / 1000.0);
             printf("%c acc ", s_cls);
             s_fields(&dt);
             s_views(&dt);
         } else if (!strcmp(t[0], "millis") && n == 2) {
             struct aws_date_time dt;
+            memset(&dt, 0x5A, sizeof(dt)); /* stale contents must not show through */
             aws_date_time_init_epoch_millis(&dt, hc_parse_u64(t[1]));
             printf("%c acc ", s_cls);
             s_fields(&dt);
